@@ -177,6 +177,9 @@ func runC04(c *Ctx) {
 		var ws []g.Warrior
 		for i := 0; i < nw; i++ {
 			l := r.Range(1, min(m, 12))
+			if m <= 64 && r.Chance(1, 30) {
+				l = r.Range(m+1, 3*m+2) // longer than the core (AddWarrior does not limit the length)
+			}
 			w := &BWarrior{Code: make([]mars.Insn, l), Start: r.Intn(l), Off: r.Intn(3 * m)}
 			for j := range w.Code {
 				w.Code[j] = randInsn(r, m, int(min(cfg.ReadLimit, cfg.CoreSize)), int(min(cfg.WriteLimit, cfg.CoreSize)))
